@@ -22,7 +22,8 @@ DEPTH = {'quick': (3, 6), 'thorough': (4, 8)}
 PARTS = {'quick': 12, 'thorough': 15}
 WALKS = {'quick': (320, 150), 'thorough': (8000, 400)}
 BUDGET = {'quick': 300, 'thorough': 700}
-REST = ('R_UPD', 'R_WD', 'R_RR', 'R_BIN', 'R_RR6', 'R_RRVPN', 'R_UPDBAD', 'R_UPDNOATTR', 'R_BINBAD', 'R_UPDUNKATTR', 'R_ROOT', 'R_PEERS')
+REST = ('R_UPD', 'R_WD', 'R_RR', 'R_BIN', 'R_RR6', 'R_RRVPN', 'R_UPDBAD', 'R_UPDNOATTR', 'R_BINBAD', 'R_UPDUNKATTR', 'R_ROOT', 'R_PEERS',
+        'Q_UPD', 'Q_WD', 'Q_NOTI', 'Q_OTHER')
 ALPHA = list(dict.fromkeys(S.ALPHABET_C01 + ['OPEN_nocap', 'UPD_atoverrun', 'UPD_lsunreach'] + S.ODD_LENGTH + S.LENGTH_EDGE))
 
 
